@@ -130,9 +130,13 @@ def interest_ref(cash, rate, markup, secs):
     return float(out)
 
 
-def ledger_episode(ctx, props, chain=False, discrete=False):
+def ledger_episode(ctx, props, chain=False, discrete=False, prebuilt=None):
+    """One episode + replay.  With `prebuilt=(env, sink, cfg)` a further episode
+    is run on the SAME environment object (repeated episodes)."""
     rng = ctx.rng
-    env, sink, cfg = build(ctx, chain, discrete)
+    env, sink, cfg = prebuilt if prebuilt is not None else build(ctx, chain, discrete)
+    chain, discrete = cfg["chain"], cfg["discrete"]
+    del sink.log[:]
     cs, grid, L, d, fees, rate = cfg["cs"], cfg["grid"], cfg["L"], cfg["d"], cfg["fees"], cfg["rate"]
     rw, cash0, evs = cfg["rw"], cfg["cash0"], cfg["evs"]
     steps = grid[cfg["i0"]:]
@@ -320,6 +324,10 @@ def ledger_episode(ctx, props, chain=False, discrete=False):
     if led.snaps:
         ctx.cat("epsilon-snap")
     ctx.notes["n_steps"] = len(outs)
+    cfg["_prebuilt"] = (env, sink, cfg)
+    if prebuilt is not None:
+        ctx.cat("repeated-episode")
+        return cfg, outs
     ctx.sample = {"contracts": [c.symbol if not isinstance(c, FutureChain) else "chain:" + c.contracts[0].symbol_short for c in cs],
                   "steps": len(outs), "latency": L, "delay": d, "reward": type(rw).__name__, "cash0": cash0,
                   "fees": {"fixed": fees.fixed, "proportional": fees.proportional, "markup": fees.markup},
